@@ -53,7 +53,7 @@ class _VolStr:
         yield 'surface-ids', sids == sorted(set(pl) | set(mi))
 
 
-@contract(WG.writeT4Geometry, props=['C08', 'C12', 'C18'], name='WriteT4Geometry.writeT4Geometry', status='B')
+@contract(WG.writeT4Geometry, props=['C08', 'C12', 'C18', 'C01'], name='WriteT4Geometry.writeT4Geometry', status='B')
 class _WriteGeom:
     """One SURF line per surface used by a volume of the dictionary (ascending, TRANSFORM block before its SURF), one
     VOLU per dictionary key not in skipped_cells, in dictionary order."""
@@ -94,7 +94,7 @@ class _WriteGeom:
         yield 'provenance-comment', (31 in skipped) or '// (4, 5)' in result
 
 
-@contract(CV.remove_unused_volumes, props=['C08', 'C01'], name='ConstructVolumeT4.remove_unused_volumes', status='B')
+@contract(CV.remove_unused_volumes, props=['C08', 'C01', 'C13'], name='ConstructVolumeT4.remove_unused_volumes', status='B')
 class _RemoveUnused:
     """Exactly the virtual volumes that no operator references are removed; nothing else changes."""
     scope = 'dictionaries of 4 volumes, every assignment of fictive flags and every single UNION/INTE reference pattern'
@@ -139,7 +139,7 @@ ASSUMPTIONS = {'C08': [
 ]}
 
 
-@contract(CV.remove_empty_volumes, props=['C08', 'C01'], name='ConstructVolumeT4.remove_empty_volumes', status='B')
+@contract(CV.remove_empty_volumes, props=['C08', 'C01', 'C13'], name='ConstructVolumeT4.remove_empty_volumes', status='B')
 class _RemoveEmpty:
     """Pruning of patently empty volumes: every volume that survives denotes what it denoted before, every removed
     volume denoted the empty set, no surviving volume lists a surface on both sides, and no operator refers to a
